@@ -4,7 +4,16 @@ import hostworld
 import streams
 from common import hx
 
-ACK_MS = 1000
+def _ack_ms():
+    """the acknowledgement wait of the working tree, in virtual milliseconds (a configuration value, not part of any property)"""
+    try:
+        from zigpy_zboss import uart
+        return int(round(float(uart.ACK_TIMEOUT) * 1000))
+    except Exception:
+        return 1000
+
+
+ACK_MS = _ack_ms()
 
 
 def gen_schedule(r, nsteps, weights=None, kinds="GPZDWZGBEF", max_live=3, allow_close=True, allow_reset=False):
